@@ -252,6 +252,55 @@ pub fn check_case(rep: &mut Report, p: &Ivs, seed: u64, thorough: bool) {
     if !check_partition(rep, p, &cp, "push", seed, thorough, &mut rng) {
         return;
     }
+    // the same partition built incrementally with queries between the pushes: after every push the object must
+    // answer for the intervals it holds so far (queries target the interval about to be pushed and the last one)
+    if p.len() >= 2 && p.len() <= 40 {
+        let mut inc = CharPartition::new();
+        for (i, &(a, b)) in p.iter().enumerate() {
+            let partial: Ivs = p[..i].to_vec();
+            for x in [a, b, a + (b - a) / 2, if i > 0 { p[i - 1].1 } else { 0 }] {
+                rep.inc("interleaved_queries");
+                let want = match class_of(&partial, x) {
+                    Some(k) => ClassId::Interval(k),
+                    None => ClassId::Complement,
+                };
+                let got = inc.class_of_char(x);
+                let cover = inc.interval_cover(&CharSet::singleton(x));
+                let want_cover = cover_by_definition(&partial, x, x);
+                if got != want || cover != want_cover {
+                    rep.violation("interleaved", "interleaved:query-between-pushes", format!("after pushing {} of the intervals of {}: class_of_char({:x}) = {}, interval_cover = {}, expected {} / {}", i, case, x, got, cover, want, want_cover), "partition", &case, seed);
+                    return;
+                }
+            }
+            if i == p.len() / 2 {
+                // a clone taken mid-way must keep answering for its own (shorter) list after the original grows
+                let snapshot = inc.clone();
+                inc.push(a, b);
+                let x = a;
+                if snapshot.class_of_char(x) != ClassId::Complement && class_of(&partial, x).is_none() {
+                    rep.violation("interleaved", "interleaved:clone", format!("a clone taken before pushing [{:x},{:x}] answers class_of_char({:x}) = {}", a, b, x, snapshot.class_of_char(x)), "partition", &case, seed);
+                    return;
+                }
+                continue;
+            }
+            inc.push(a, b);
+        }
+        if !same_partition(&inc, &cp) {
+            rep.violation("interleaved", "interleaved:final", format!("incrementally built partition differs for {}", case), "partition", &case, seed);
+            return;
+        }
+        // and re-ask every break point after the whole history
+        for &x in &break_points(&[p]) {
+            let want = match class_of(p, x) {
+                Some(k) => ClassId::Interval(k),
+                None => ClassId::Complement,
+            };
+            if inc.class_of_char(x) != want {
+                rep.violation("interleaved", "interleaved:after-history", format!("incrementally built {}: class_of_char({:x}) = {}, expected {}", case, x, inc.class_of_char(x), want), "partition", &case, seed);
+                return;
+            }
+        }
+    }
     // from_set for single intervals
     if p.len() == 1 {
         let c1 = CharPartition::from_set(&CharSet::range(p[0].0, p[0].1));
